@@ -213,8 +213,54 @@ pub fn take_last_panic() -> Option<String> {
     LAST_PANIC.lock().unwrap().take()
 }
 
+/// The case a worker is evaluating right now: (start, serialised case). Read by the worker's case watchdog.
+static CURRENT_CASE: Mutex<Option<(Instant, String)>> = Mutex::new(None);
+
+/// No single case of any check legitimately runs this long (the slowest - live swarms, crash enumeration over a large
+/// batch, crowds of authors - stay well below a minute).
+const CASE_LIMIT: Duration = Duration::from_secs(300);
+
+/// A worker whose current case does not finish: if a thread of the code under test (the store actor, a spawned task)
+/// panicked meanwhile, the request the case is waiting for will never be answered - that panic is the finding and is
+/// reported with the case as it is (no shrinking); otherwise the case is printed and the worker gives up (exit 2,
+/// inconclusive - never a violation).
+fn spawn_case_watchdog(id: &'static str, out: PathBuf) {
+    std::thread::spawn(move || loop {
+        std::thread::sleep(Duration::from_secs(1));
+        let cur = CURRENT_CASE.lock().unwrap().clone();
+        let Some((since, case)) = cur else { continue };
+        let waited = since.elapsed();
+        let panic = LAST_PANIC.lock().unwrap().clone();
+        // a recorded panic plus ten quiet seconds: nobody is going to answer
+        if let (Some(msg), true) = (&panic, waited > Duration::from_secs(10)) {
+            let head: String = msg.chars().take(120).collect();
+            let report = WorkerReport {
+                violation: Some(ViolationReport {
+                    sig: format!("panic-in-other-thread:{head}"),
+                    detail: format!("{msg}; the case was still waiting {waited:?} later (the panicked thread never answered)"),
+                    case: serde_json::from_str(&case).unwrap_or(Value::Null),
+                }),
+                ..WorkerReport::default()
+            };
+            let _ = std::fs::write(&out, serde_json::to_vec(&report).unwrap());
+            std::process::exit(1);
+        }
+        if waited > CASE_LIMIT {
+            eprintln!("INCONCLUSIVE: {id}: one case did not finish within {CASE_LIMIT:?}: {case}");
+            std::process::exit(2);
+        }
+    });
+}
+
 /// Run the check, turning a panic of the checking thread into a failure.
 fn guarded_check<P: Prop>(ctx: &mut Ctx, case: &P::Case) -> Outcome {
+    let o = guarded_check_inner::<P>(ctx, case);
+    *CURRENT_CASE.lock().unwrap() = None;
+    o
+}
+
+fn guarded_check_inner<P: Prop>(ctx: &mut Ctx, case: &P::Case) -> Outcome {
+    *CURRENT_CASE.lock().unwrap() = Some((Instant::now(), serde_json::to_string(case).unwrap_or_default()));
     let _ = take_last_panic();
     crate::common::LONG_KEY_SEEN.store(false, std::sync::atomic::Ordering::Relaxed);
     let res = std::panic::catch_unwind(std::panic::AssertUnwindSafe(|| P::check(ctx, case)));
@@ -420,6 +466,7 @@ pub fn run_worker<P: Prop>(tier: Tier, seed: u64, index: usize, workers: usize, 
         libc::prctl(libc::PR_SET_PDEATHSIG, libc::SIGKILL);
     }
     install_panic_hook();
+    spawn_case_watchdog(P::ID, out.to_path_buf());
     let started = Instant::now();
     let mut ctx = Ctx::new(tier);
     let mut tally = Tally {
@@ -650,47 +697,64 @@ pub fn run_parent<P: Prop>(tier: Tier) -> i32 {
     }
     let budget = Duration::from_secs(P::worker_budget_s(tier));
     let mut reports: Vec<WorkerReport> = vec![];
-    for (i, mut child, out) in children {
-        // wait with watchdog
-        let status = loop {
-            match child.try_wait() {
-                Ok(Some(st)) => break Some(st),
+    // all workers are polled together; once one of them has reported a violation the others are redundant (they would
+    // only find it again, or sit in a case that the same defect makes hang) and are stopped after a grace period
+    const GRACE_AFTER_VIOLATION: Duration = Duration::from_secs(45);
+    let mut violation_seen: Option<Instant> = None;
+    let mut alive: Vec<Option<(usize, std::process::Child, PathBuf)>> = children.into_iter().map(Some).collect();
+    while alive.iter().any(|c| c.is_some()) {
+        let over_budget = started.elapsed() > budget;
+        let grace_over = violation_seen.map(|t| t.elapsed() > GRACE_AFTER_VIOLATION).unwrap_or(false);
+        for slot in alive.iter_mut() {
+            let Some((i, child, out)) = slot.as_mut() else { continue };
+            let status = match child.try_wait() {
+                Ok(Some(st)) => Some(Some(st)),
                 Ok(None) => {
-                    if started.elapsed() > budget {
+                    if over_budget || grace_over {
                         let _ = child.kill();
                         let _ = child.wait();
-                        break None;
+                        Some(None)
+                    } else {
+                        None
                     }
-                    std::thread::sleep(Duration::from_millis(20));
                 }
-                Err(_) => break None,
+                Err(_) => Some(None),
+            };
+            let Some(status) = status else { continue };
+            let mut stderr = String::new();
+            if let Some(mut e) = child.stderr.take() {
+                let _ = e.read_to_string(&mut stderr);
             }
-        };
-        let mut stderr = String::new();
-        if let Some(mut e) = child.stderr.take() {
-            let _ = e.read_to_string(&mut stderr);
-        }
-        match status {
-            None => {
-                eprintln!("worker {i}: exceeded the wall budget of {budget:?} – killed (inconclusive)");
-                inconclusive = true;
-            }
-            Some(st) => {
-                let code = st.code().unwrap_or(-1);
-                match std::fs::read(&out).ok().and_then(|b| serde_json::from_slice::<WorkerReport>(&b).ok()) {
-                    Some(r) => {
-                        if code == 2 {
+            match status {
+                None if grace_over && !over_budget => {
+                    eprintln!("worker {i}: stopped {GRACE_AFTER_VIOLATION:?} after another worker reported a violation");
+                }
+                None => {
+                    eprintln!("worker {i}: exceeded the wall budget of {budget:?} – killed (inconclusive)");
+                    inconclusive = true;
+                }
+                Some(st) => {
+                    let code = st.code().unwrap_or(-1);
+                    match std::fs::read(&*out).ok().and_then(|b| serde_json::from_slice::<WorkerReport>(&b).ok()) {
+                        Some(r) => {
+                            if code == 2 {
+                                inconclusive = true;
+                            }
+                            if r.violation.is_some() && violation_seen.is_none() {
+                                violation_seen = Some(Instant::now());
+                            }
+                            reports.push(r)
+                        }
+                        None => {
+                            eprintln!("worker {i}: exit {code} without a report (inconclusive)\n{stderr}");
                             inconclusive = true;
                         }
-                        reports.push(r)
-                    }
-                    None => {
-                        eprintln!("worker {i}: exit {code} without a report (inconclusive)\n{stderr}");
-                        inconclusive = true;
                     }
                 }
             }
+            *slot = None;
         }
+        std::thread::sleep(Duration::from_millis(20));
     }
     let _ = std::fs::remove_dir_all(&out_dir);
 
